@@ -61,6 +61,8 @@ def main():
             return ("C17",)
         if name.endswith("BeltStore_gate"):
             return ("C12", "C13")
+        if name.endswith("_get_delay_draws"):
+            return ("C08", "C11") if name.startswith("Edge") else ("C08",)
         if name.endswith("_push_item_shape"):
             return ("C03", "C16")
         if name.endswith("_delegates"):
